@@ -29,6 +29,8 @@ type ParkSched struct {
 	// the number of parked tasks, candidates ordered by task id); later choices come from the PRNG.
 	Script []int
 	Stuck  bool // every unfinished task was blocked and none parked (deadlock among tasks)
+	// StuckStacks: when Stuck, the goroutine dump blocks (state line and frames) of the unfinished tasks
+	StuckStacks []string
 	Blocks int  // decisions taken while some task was blocked on a lock/channel
 }
 
@@ -130,6 +132,33 @@ func snapshotAfter(gen uint64) (map[uint64]bool, uint64) {
 	snap.gen++
 	snap.at = time.Now()
 	return snap.blocked, snap.gen
+}
+
+// goroutineBlocks returns the dump blocks of the given goroutines.
+func goroutineBlocks(want map[uint64]bool) []string {
+	buf := make([]byte, 1<<18)
+	for {
+		n := runtime.Stack(buf, true)
+		if n < len(buf) {
+			buf = buf[:n]
+			break
+		}
+		buf = make([]byte, 2*len(buf))
+	}
+	var out []string
+	for _, blk := range strings.Split(string(buf), "\n\n") {
+		if !strings.HasPrefix(blk, "goroutine ") {
+			continue
+		}
+		f := strings.Fields(blk)
+		if len(f) < 2 {
+			continue
+		}
+		if g, err := strconv.ParseUint(f[1], 10, 64); err == nil && want[g] {
+			out = append(out, blk)
+		}
+	}
+	return out
 }
 
 // blockedGids returns the goroutines that the runtime reports as waiting for a lock or a channel.
@@ -265,6 +294,15 @@ func (s *ParkSched) Run() error {
 		}
 		if len(cands) == 0 {
 			s.Stuck = true
+			s.mu.Lock()
+			want := map[uint64]bool{}
+			for _, t := range s.tasks {
+				if !t.done {
+					want[t.gid] = true
+				}
+			}
+			s.mu.Unlock()
+			s.StuckStacks = goroutineBlocks(want)
 			if os.Getenv("VERIF_DEBUG") != "" {
 				buf := make([]byte, 1<<18)
 				fmt.Fprintf(os.Stderr, "STUCK:\n%s\n", buf[:runtime.Stack(buf, true)])
